@@ -123,6 +123,39 @@ def forceSelfClosing (s : Bytes) : Bytes := scan Match.eligible s.length s
 /-- single-pass model with the unrepaired eligibility test (used to reproduce the defect) -/
 def forceSelfClosingAsIs (s : Bytes) : Bytes := scan Match.eligibleAsIs s.length s
 
+/-! ### the function exactly as written in Go (FindAllSubmatch, then ReplaceAll per match)
+
+`forceSelfClosing` above rewrites each match where it stands. The Go code instead replaces every
+textual occurrence of a matched element, one `bytes.ReplaceAll` per match, on the progressively
+rewritten buffer. The two agree whenever the text of an eligible match does not occur elsewhere
+in the input outside a match (e.g. inside a comment or CDATA section); the driver evaluates that
+agreement per case (`dom`). -/
+
+/-- `FindAllSubmatch`: the matches in input order (same traversal as `scan`) -/
+def findAll : Nat → Bytes → List Match
+  | 0, _ => []
+  | _, [] => []
+  | f+1, b :: t =>
+    if b == LTc then
+      match matchAt t with
+      | some m => m :: findAll f m.rest
+      | none => findAll f t
+    else findAll f t
+
+/-- `bytes.ReplaceAll` for a non-empty `old` -/
+def replaceAll (old new : Bytes) : Nat → Bytes → Bytes
+  | 0, s => s
+  | _, [] => []
+  | f+1, b :: t =>
+    if hasPrefix (b :: t) old && !old.isEmpty then
+      new ++ replaceAll old new f ((b :: t).drop old.length)
+    else b :: replaceAll old new f t
+
+/-- `ForceSelfClosingTags` statement by statement -/
+def forceSelfClosingGo (elig : Match → Bool) (s : Bytes) : Bytes :=
+  (findAll s.length s).foldl
+    (fun b m => if elig m then replaceAll m.full m.closed b.length b else b) s
+
 /-! ### specification of the rewrite -/
 
 /-- `<name attrs>ws</name>` is an empty element the rewrite may close -/
